@@ -73,15 +73,15 @@ func (c15) Budget(tier string) runner.Budget {
 
 func (c15) Describe() runner.Description {
 	return runner.Description{
-		Rule:        "each plan: group of n in [3,10] members keyed by the node's DKG code; a real proposed block; the verifier (member 0) runs the real signing party; every other member sends one or more verify messages in a seeded arrival order, some before the proposal is accepted (stored-message replay, which iterates a map): honest (share over this block's hash + beacon share over the previous beacon), or Byzantine: a valid signature over a DIFFERENT hash filed under this block's hash, another member's share under their own id, their own share twice, a share from a non-member id, garbage/identity points, valid block share with invalid beacon share and vice versa; in 40% of the plans the same verifier process has first signed an EARLIER block of the group with all members honest, and a Byzantine member replays its valid share (block or beacon) of that earlier block inside a message naming this block. In half of the plans the messages travel through the processor's party bookkeeping (real OnMessageVerify / loadOrNewSignParty: early messages are parked under the block hash and handed over, in a seeded order, once the party has taken that key), including forged messages that merely NAME another member as signer. After every delivery the block-signature and beacon share sets must contain only (member -> that member's valid share for this block hash / previous beacon), at most one per member; once the proposal is accepted and k honest members' messages are in (any order, any Byzantine traffic from at most n-k members interleaved) the party must have finalised within that delivery with a block signature and beacon that verify under the group public key (bounded liveness: 0 further steps). distinct_nontrivial = distinct (n, Byzantine pattern, early/late pattern) triples with at least one Byzantine message.",
+		Rule:        "each plan: group of n in [3,10] members keyed by the node's DKG code; a real proposed block; the verifier (member 0) runs the real signing party; every other member sends one or more verify messages in a seeded arrival order, some before the proposal is accepted (stored-message replay, which iterates a map): honest (share over this block's hash + beacon share over the previous beacon), or Byzantine: a valid signature over a DIFFERENT hash filed under this block's hash, another member's share under their own id, their own share twice, a share from a non-member id, garbage/identity points, valid block share with invalid beacon share and vice versa; in 40% of the plans the same verifier process has first signed an EARLIER block of the group with all members honest, and a Byzantine member replays its valid share (block or beacon) of that earlier block inside a message naming this block. In half of the plans the messages travel through the processor's party bookkeeping (real OnMessageVerify / loadOrNewSignParty: early messages are parked under the block hash and handed over, in a seeded order, once the party has taken that key), including forged messages that merely NAME another member as signer, a faulty member announcing its own share public key under another member's id before signing as that member, and signer ids longer than 32 bytes; an error raised on the party's error channel counts as the end of the party (the processor tears it down). After every delivery the block-signature and beacon share sets must contain only (member -> that member's valid share for this block hash / previous beacon), at most one per member; once the proposal is accepted and k honest members' messages are in (any order, any Byzantine traffic from at most n-k members interleaved) the party must have finalised within that delivery with a block signature and beacon that verify under the group public key (bounded liveness: 0 further steps). distinct_nontrivial = distinct (n, Byzantine pattern, early/late pattern) triples with at least one Byzantine message.",
 		Assumptions: []string{"round0's own acceptance checks (castor key, VRF, group selection, time window) are not part of C15: the party is positioned after them by an in-package driver", "at most n-k members are Byzantine when liveness is asserted; set-content checks hold for any number"},
 		Real:        []string{"consensus/logical SignParty, round1 (share collection), round2 (finalizer), stored-message replay", "consensus/net verify-message decoder", "consensus/groupsig (verify, recover)", "group_create.GetMemberSignPubKey + access.JoinedGroupStorage on the node's store", "core chain (GenerateBlock, AddBlockOnChain) of a booted node"},
 		Stub:        []string{"other group members (scripted)", "consensus network server (recording fake)", "ConsensusHelper of the chain"},
-		FaultKinds:  []string{"byz_other_hash", "byz_replay_member", "byz_duplicate", "byz_non_member", "byz_garbage", "byz_bad_beacon", "byz_bad_block_share", "byz_replay_old_block_share", "prior_block_signed_in_process", "byz_forged_signer_name", "processor_level_parking", "early_arrival", "map_order_seed"},
+		FaultKinds:  []string{"byz_other_hash", "byz_replay_member", "byz_duplicate", "byz_non_member", "byz_garbage", "byz_bad_beacon", "byz_bad_block_share", "byz_replay_old_block_share", "prior_block_signed_in_process", "byz_forged_signer_name", "byz_rekey_other_member", "byz_malformed_signer_id", "processor_level_parking", "early_arrival", "map_order_seed"},
 	}
 }
 
-var c15Kinds = []string{"otherhash", "otherblock", "replay", "dup", "nonmember", "garbage", "badbeacon", "badblock", "oldshare", "forgename"}
+var c15Kinds = []string{"otherhash", "otherblock", "replay", "dup", "nonmember", "garbage", "badbeacon", "badblock", "oldshare", "forgename", "rekey", "longid"}
 
 func (c15) Gen(seed uint64, tier string) json.RawMessage {
 	r := simrt.NewRand(seed)
@@ -341,6 +341,17 @@ func (c15) Exec(raw json.RawMessage, st *simrt.Stats, log *simrt.Log) *simrt.Vio
 			o := (j + 1 + m.Arg%(n-1)) % n
 			g := simrt.NewRand(uint64(m.Arg)*31 + p.Seed).Bytes(len(bs))
 			return c15Wire(bh.Hash, bh.Hash, g, groupsig.Sign(sks[j], []byte("forged")).Serialize(), ids[o].Serialize())
+		case "rekey":
+			// the faulty member first announces ITS share public key in another member's name (the table of share
+			// public keys keeps the first announcement), then signs as that member
+			st.Fault("byz_rekey_other_member")
+			o := (j + 1 + m.Arg%(n-1)) % n
+			storage.AddMemberSignPk(ids[o], gid, *groupsig.GeneratePubkey(sks[j]))
+			return c15Wire(bh.Hash, bh.Hash, bs, rs, ids[o].Serialize())
+		case "longid":
+			// a signer id that is not an id at all (longer than 32 bytes): the message must simply be ignored
+			st.Fault("byz_malformed_signer_id")
+			return c15Wire(bh.Hash, bh.Hash, bs, rs, simrt.NewRand(uint64(m.Arg)+p.Seed).Bytes(33+m.Arg%16))
 		case "badbeacon":
 			st.Fault("byz_bad_beacon")
 			return c15Wire(bh.Hash, bh.Hash, bs, groupsig.Sign(sks[j], []byte("not the beacon")).Serialize(), idb)
@@ -399,7 +410,22 @@ func (c15) Exec(raw json.RawMessage, st *simrt.Stats, log *simrt.Log) *simrt.Vio
 	accepted := false
 	var taskViol *simrt.Violation
 	finishedAt := -1
+	dead := false // an error on the party's error channel makes the processor tear the party down
+	var deadErr error
+	noteErr := func() {
+		if e := party.TakeErr(); e != nil && !dead && !party.Finished() {
+			dead, deadErr = true, e
+		}
+	}
 	deliver := func(i int, m c15Msg) {
+		if dead {
+			// the processor answers "party already done": nothing reaches the party any more - but the honest
+			// member did send its share
+			if m.Kind == "honest" || m.Kind == "dup" {
+				honestIn[m.From%n] = true
+			}
+			return
+		}
 		wire := build(i, m)
 		cvm, err := cnet.UnMarshalConsensusVerifyMessage(wire)
 		if err != nil || cvm == nil {
@@ -421,6 +447,7 @@ func (c15) Exec(raw json.RawMessage, st *simrt.Stats, log *simrt.Log) *simrt.Vio
 		if finishedAt < 0 && party.Finished() {
 			finishedAt = i
 		}
+		noteErr()
 	}
 	run := func() {
 		for i, m := range p.Msgs {
@@ -467,6 +494,9 @@ func (c15) Exec(raw json.RawMessage, st *simrt.Stats, log *simrt.Log) *simrt.Vio
 	_ = accepted
 	// bounded liveness: k honest members in => finalised, signature and beacon valid
 	perr := party.TakeErr()
+	if deadErr != nil {
+		perr = deadErr
+	}
 	if len(honestIn) >= k && len(byzMembers) <= n-k {
 		st.Probe("liveness_asserted")
 		if finishedAt == -1 {
